@@ -511,6 +511,7 @@ func argProv(p godi.Provider) argRec {
 // recCtor is called by every library constructor: applies the fault script, allocates
 // instance ids, emits the ctor event.  n = number of instances to allocate.
 var bareIDs int64
+var opEvents int64 // constructor events of the call in progress (sequential mode)
 
 func recCtor(fn string, ign bool, n int, args []argRec) (ids []int, reg string, err error) {
 	if R.bare {
@@ -568,6 +569,13 @@ func recCtor(fn string, ign bool, n int, args []argRec) (ids []int, reg string, 
 	quiet := R.quiet
 	R.mu.Unlock()
 	if !quiet {
+		if n := atomic.AddInt64(&opEvents, 1); n > 4000 && !R.concurrent {
+			// a single call that keeps constructing: resolution does not terminate (it would end in a stack
+			// overflow much later); report it like a call that never returns
+			emit(M{"ev": "hang", "th": "main", "op": curOp().op, "why": "runaway construction"})
+			flushOut()
+			os.Exit(3)
+		}
 		emit(M{"ev": "ctor", "th": procName(), "reg": reg, "fn": fn, "inv": inv, "scope": sc, "args": args, "outs": outs, "outcome": outcome, "ign": ign})
 	}
 	switch outcome {
@@ -901,6 +909,15 @@ func doOp(o *Op) {
 	}
 	emit(callEv(o))
 	flushOut()
+	atomic.StoreInt64(&opEvents, 0)
+	// a call that does not return (a resolution that never terminates, a wait that is never released) is
+	// reported and ends this process; the driver runs the remaining scenarios in a fresh one
+	watchdog := time.AfterFunc(8*time.Second, func() {
+		emit(M{"ev": "hang", "th": "main", "op": o.Op})
+		flushOut()
+		os.Exit(3)
+	})
+	defer watchdog.Stop()
 	ret := baseRet(o.Op)
 	switch o.Op {
 	case "resolve", "group":
@@ -1198,7 +1215,7 @@ func containerMain(args []string) {
 	skip := fs.Int("skip", 0, "skip the first n scenarios (resume after a crash)")
 	fs.Parse(args)
 	godi.VerifHook = seqHook
-	debug.SetMaxStack(256 << 20)
+	debug.SetMaxStack(64 << 20)
 	sc := bufio.NewScanner(os.Stdin)
 	sc.Buffer(make([]byte, 1<<20), 1<<26)
 	run := 0
